@@ -17,76 +17,69 @@ Theorem C07_minus_exact_when_fits :
 Proof. exact minus_exact. Qed.
 Print Assumptions C07_minus_exact_when_fits.
 
-(* ---- + and - : overflow gives the float sum of the converted operands.  _partial: one operand pair is excluded
-   for each operator, where today's sign-change test misses the overflow (see the _refuted theorems) ---- *)
-Theorem C07_plus_overflows_to_float_partial :
-  forall a b, in64 a = true -> in64 b = true -> in64 (a + b) = false -> (a, b) <> (min_int64, min_int64) ->
+(* ---- + and - : overflow gives the float sum / difference of the converted operands, for ALL int64 operands
+   (repaired by /repo 9dd59d176: the -2^63 corners are now detected) ---- *)
+Theorem C07_plus_overflows_to_float :
+  forall a b, in64 a = true -> in64 b = true -> in64 (a + b) = false ->
   eval_bin OPlus (NInt a) (NInt b) = RFloat (PrimFloat.add (i2f a) (i2f b)).
 Proof. exact plus_overflow_float. Qed.
-Print Assumptions C07_plus_overflows_to_float_partial.
+Print Assumptions C07_plus_overflows_to_float.
 
-Theorem C07_minus_overflows_to_float_partial :
-  forall a b, in64 a = true -> in64 b = true -> in64 (a - b) = false -> (a, b) <> (0, min_int64) ->
+Theorem C07_minus_overflows_to_float :
+  forall a b, in64 a = true -> in64 b = true -> in64 (a - b) = false ->
   eval_bin OMinus (NInt a) (NInt b) = RFloat (PrimFloat.sub (i2f a) (i2f b)).
 Proof. exact minus_overflow_float. Qed.
-Print Assumptions C07_minus_overflows_to_float_partial.
+Print Assumptions C07_minus_overflows_to_float.
 
-(* never a wrapped integer, outside the two holes *)
-Theorem C07_plus_never_wraps_partial :
-  forall a b n, in64 a = true -> in64 b = true -> (a, b) <> (min_int64, min_int64) ->
-  eval_bin OPlus (NInt a) (NInt b) = RInt n -> n = a + b.
+(* never a wrapped integer *)
+Theorem C07_plus_never_wraps :
+  forall a b n, in64 a = true -> in64 b = true -> eval_bin OPlus (NInt a) (NInt b) = RInt n -> n = a + b.
 Proof. exact plus_int_is_exact. Qed.
-Print Assumptions C07_plus_never_wraps_partial.
+Print Assumptions C07_plus_never_wraps.
 
-Theorem C07_minus_never_wraps_partial :
-  forall a b n, in64 a = true -> in64 b = true -> (a, b) <> (0, min_int64) ->
-  eval_bin OMinus (NInt a) (NInt b) = RInt n -> n = a - b.
+Theorem C07_minus_never_wraps :
+  forall a b n, in64 a = true -> in64 b = true -> eval_bin OMinus (NInt a) (NInt b) = RInt n -> n = a - b.
 Proof. exact minus_int_is_exact. Qed.
-Print Assumptions C07_minus_never_wraps_partial.
+Print Assumptions C07_minus_never_wraps.
 
-(* the full overflow clause is false of the faithful model: (-2^63)+(-2^63) = int 0 and 0-(-2^63) = int -2^63 *)
-Theorem C07_plus_overflows_to_float_refuted :
-  exists a b, in64 a = true /\ in64 b = true /\ in64 (a + b) = false /\ eval_bin OPlus (NInt a) (NInt b) = RInt 0.
-Proof. exact (ex_intro _ min_int64 (ex_intro _ min_int64 (conj eq_refl (conj eq_refl plus_hole)))). Qed.
-Print Assumptions C07_plus_overflows_to_float_refuted.
+(* ---- * : float-magnitude threshold, then the integer product verified by dividing it back (/repo 948308289).
+   An int result is the exact product and an overflowing product is a float, for ALL int64 operands.  What remains
+   false is "exact whenever it fits": within 1024 of 2^63 the documented threshold heuristic answers with a float ---- *)
+Theorem C07_times_never_wraps :
+  forall a b n, in64 a = true -> in64 b = true -> eval_bin OTimes (NInt a) (NInt b) = RInt n -> n = a * b.
+Proof. exact times_int_is_exact. Qed.
+Print Assumptions C07_times_never_wraps.
 
-Theorem C07_minus_overflows_to_float_refuted :
-  exists a b, in64 a = true /\ in64 b = true /\ in64 (a - b) = false /\ eval_bin OMinus (NInt a) (NInt b) = RInt min_int64.
-Proof. exact (ex_intro _ 0 (ex_intro _ min_int64 (conj eq_refl (conj eq_refl minus_hole)))). Qed.
-Print Assumptions C07_minus_overflows_to_float_refuted.
-
-(* ---- * : float-magnitude threshold.  Both directions of the clause are false of the faithful model ---- *)
-Theorem C07_times_int_result_is_wrapped_product :
-  forall a b n, eval_bin OTimes (NInt a) (NInt b) = RInt n -> n = wrap64 (a * b).
-Proof. exact times_int_is_wrapped. Qed.
-Print Assumptions C07_times_int_result_is_wrapped_product.
-
-Theorem C07_times_never_wraps_refuted :
-  exists a b n, in64 a = true /\ in64 b = true /\ in64 (a * b) = false /\ eval_bin OTimes (NInt a) (NInt b) = RInt n.
-Proof. exact times_wraps_witness. Qed.
-Print Assumptions C07_times_never_wraps_refuted.
+Theorem C07_times_overflows_to_float :
+  forall a b, in64 a = true -> in64 b = true -> in64 (a * b) = false ->
+  eval_bin OTimes (NInt a) (NInt b) = RFloat (PrimFloat.mul (i2f a) (i2f b)).
+Proof. exact times_overflow_is_float. Qed.
+Print Assumptions C07_times_overflows_to_float.
 
 Theorem C07_times_exact_when_fits_refuted :
   exists a b f, in64 a = true /\ in64 b = true /\ in64 (a * b) = true /\ eval_bin OTimes (NInt a) (NInt b) = RFloat f.
 Proof. exact times_float_when_fits_witness. Qed.
 Print Assumptions C07_times_exact_when_fits_refuted.
 
-(* ---- / : exact quotient when one exists, float otherwise ---- *)
-Theorem C07_divide_exact_quotient_partial :
-  forall a b q, in64 a = true -> in64 b = true -> b <> 0 -> (a, b) <> (min_int64, -1) -> a = b * q ->
+(* ---- / : exact quotient when one exists (and fits), float otherwise ---- *)
+Theorem C07_divide_exact_quotient :
+  forall a b q, in64 a = true -> in64 b = true -> b <> 0 -> a = b * q -> in64 q = true ->
   eval_bin ODivide (NInt a) (NInt b) = RInt q.
 Proof. exact divide_exact. Qed.
-Print Assumptions C07_divide_exact_quotient_partial.
+Print Assumptions C07_divide_exact_quotient.
 
 Theorem C07_divide_inexact_is_float :
   forall a b, b <> 0 -> (forall q, a <> b * q) -> eval_bin ODivide (NInt a) (NInt b) = RFloat (PrimFloat.div (i2f a) (i2f b)).
 Proof. exact divide_inexact_float. Qed.
 Print Assumptions C07_divide_inexact_is_float.
 
-Theorem C07_divide_min_by_minus_one_refuted :
-  eval_bin ODivide (NInt min_int64) (NInt (-1)) = RInt min_int64 /\ min_int64 = -1 * two63 /\ in64 two63 = false.
-Proof. exact divide_hole_wraps. Qed.
-Print Assumptions C07_divide_min_by_minus_one_refuted.
+(* the one exact quotient of two int64s that does not fit, -2^63 / -1 = 2^63, is the float 2^63 for / and // (/repo 0499ffd56) *)
+Theorem C07_divide_min_by_minus_one_is_float :
+  eval_bin ODivide (NInt min_int64) (NInt (-1)) = RFloat (PrimFloat.opp (i2f min_int64))
+  /\ eval_bin OIntDivide (NInt min_int64) (NInt (-1)) = RFloat (PrimFloat.opp (i2f min_int64))
+  /\ min_int64 = -1 * two63 /\ in64 two63 = false /\ bits_of_f (PrimFloat.opp (i2f min_int64)) = float_of_int two63.
+Proof. exact divide_hole_float. Qed.
+Print Assumptions C07_divide_min_by_minus_one_is_float.
 
 (* zero divisors of / // % give a float (Inf or NaN), not a crash *)
 Theorem C07_zero_divisor_is_float :
@@ -96,42 +89,36 @@ Theorem C07_zero_divisor_is_float :
 Proof. exact (fun a => conj (divide_by_zero_float a) (conj (int_divide_by_zero_float a) (modulus_by_zero_float a))). Qed.
 Print Assumptions C07_zero_divisor_is_float.
 
-(* ---- // floors (Z.div is the floor quotient) ---- *)
-Theorem C07_int_divide_floors_partial :
+(* ---- // floors (Z.div is the floor quotient); the excluded pair is exactly the one whose floor quotient does not
+   fit (second theorem) and gives the float 2^63 (theorem above) ---- *)
+Theorem C07_int_divide_floors :
   forall a b, in64 a = true -> in64 b = true -> b <> 0 -> (a, b) <> (min_int64, -1) ->
   eval_bin OIntDivide (NInt a) (NInt b) = RInt (a / b).
 Proof. exact int_divide_floor. Qed.
-Print Assumptions C07_int_divide_floors_partial.
+Print Assumptions C07_int_divide_floors.
 
-(* ---- % : pythonic modulus.  _partial: today's kernel tests the sign of the dividend instead of the remainder, so the
-   statement holds only when b does not divide a or a and b have the same sign ---- *)
-Theorem C07_modulus_is_floor_mod_partial :
-  forall a b, in64 a = true -> in64 b = true -> b <> 0 ->
-  (Z.rem a b <> 0 \/ (0 <= a /\ 0 < b) \/ (a < 0 /\ b < 0)) ->
-  eval_bin OMod (NInt a) (NInt b) = RInt (a mod b).
-Proof. exact modulus_partial. Qed.
-Print Assumptions C07_modulus_is_floor_mod_partial.
+Theorem C07_floor_quotient_fits_except_min_by_minus_one :
+  forall a b, in64 a = true -> in64 b = true -> b <> 0 -> (in64 (a / b) = false <-> (a, b) = (min_int64, -1)).
+Proof. exact floor_quotient_fits. Qed.
+Print Assumptions C07_floor_quotient_fits_except_min_by_minus_one.
 
-Theorem C07_modulus_takes_divisor_sign_partial :
+(* ---- % : the floor modulus (Z.modulo), for ALL int64 operands with a non-zero divisor (/repo 7910d392d) ---- *)
+Theorem C07_modulus_is_floor_mod :
+  forall a b, in64 a = true -> in64 b = true -> b <> 0 -> eval_bin OMod (NInt a) (NInt b) = RInt (a mod b).
+Proof. exact modulus_floor_mod. Qed.
+Print Assumptions C07_modulus_is_floor_mod.
+
+Theorem C07_modulus_takes_divisor_sign :
   forall a b m, in64 a = true -> in64 b = true -> b <> 0 ->
-  (Z.rem a b <> 0 \/ (0 <= a /\ 0 < b) \/ (a < 0 /\ b < 0)) ->
   eval_bin OMod (NInt a) (NInt b) = RInt m -> (0 < b -> 0 <= m < b) /\ (b < 0 -> b < m <= 0).
-Proof. exact modulus_sign_partial. Qed.
-Print Assumptions C07_modulus_takes_divisor_sign_partial.
+Proof. exact modulus_sign. Qed.
+Print Assumptions C07_modulus_takes_divisor_sign.
 
-Theorem C07_divmod_identity_partial :
-  forall a b q m, in64 a = true -> in64 b = true -> b <> 0 -> (a, b) <> (min_int64, -1) ->
-  (Z.rem a b <> 0 \/ (0 <= a /\ 0 < b) \/ (a < 0 /\ b < 0)) ->
+Theorem C07_divmod_identity :
+  forall a b q m, in64 a = true -> in64 b = true -> b <> 0 ->
   eval_bin OIntDivide (NInt a) (NInt b) = RInt q -> eval_bin OMod (NInt a) (NInt b) = RInt m -> a = b * q + m.
-Proof. exact divmod_identity_partial. Qed.
-Print Assumptions C07_divmod_identity_partial.
-
-Theorem C07_modulus_refuted :
-  in64 (-10) = true /\ in64 5 = true /\ eval_bin OMod (NInt (-10)) (NInt 5) = RInt 5 /\ (-10) mod 5 = 0
-  /\ eval_bin OMod (NInt 6) (NInt (-3)) = RInt (-3) /\ 6 mod (-3) = 0
-  /\ eval_bin OIntDivide (NInt (-10)) (NInt 5) = RInt (-2) /\ -10 <> 5 * (-2) + 5.
-Proof. exact modulus_refuted_witness. Qed.
-Print Assumptions C07_modulus_refuted.
+Proof. exact divmod_identity. Qed.
+Print Assumptions C07_divmod_identity.
 
 (* ---- ** : int**int goes through math.Pow on doubles; exactness is false of the faithful model ---- *)
 Theorem C07_pow_exact_when_fits_refuted :
@@ -144,8 +131,9 @@ Theorem C07_dot_operators_wrap :
   forall a b, eval_bin ODotPlus (NInt a) (NInt b) = RInt (wrap64 (a + b))
            /\ eval_bin ODotMinus (NInt a) (NInt b) = RInt (wrap64 (a - b))
            /\ eval_bin ODotTimes (NInt a) (NInt b) = RInt (wrap64 (a * b))
-           /\ (b <> 0 -> eval_bin ODotDivide (NInt a) (NInt b) = RInt (wrap64 (Z.quot a b))).
-Proof. exact (fun a b => conj (dotplus_wrap a b) (conj (dotminus_wrap a b) (conj (dottimes_wrap a b) (dotdivide_trunc a b)))). Qed.
+           /\ (b <> 0 -> eval_bin ODotDivide (NInt a) (NInt b) = RInt (wrap64 (Z.quot a b)))
+           /\ eval_bin ODotDivide (NInt a) (NInt 0) = RFloat (PrimFloat.div (i2f a) (i2f 0)).
+Proof. exact (fun a b => conj (dotplus_wrap a b) (conj (dotminus_wrap a b) (conj (dottimes_wrap a b) (conj (dotdivide_trunc a b) (dotdivide_zero_float a))))). Qed.
 Print Assumptions C07_dot_operators_wrap.
 
 (* what wrap64 means: the unique int64 congruent to the exact value modulo 2^64 *)
@@ -236,7 +224,7 @@ Theorem C07_int_preserving_value_refuted :
 Proof. exact int_preserving_value_witness. Qed.
 Print Assumptions C07_int_preserving_value_refuted.
 
-(* ---- madd/msub/mmul/mexp = exact modular arithmetic for m > 0.
+(* ---- madd/msub/mmul/mexp = exact modular arithmetic for m > 0 (m = 0: error value, theorem C07_zero_modulus_is_error).
    _partial: when the exact sum/difference/product fits in 64 bits (the code reduces AFTER wrapping) ---- *)
 Theorem C07_madd_exact_partial :
   forall a b m, in64 m = true -> 0 < m -> in64 (a + b) = true ->
@@ -270,19 +258,13 @@ Theorem C07_mod_ops_exact_refuted :
 Proof. exact mop_wrap_witness. Qed.
 Print Assumptions C07_mod_ops_exact_refuted.
 
-(* mexp by the repeated-squaring invariant c * apower^u = a^e (mod m); _partial: |a|, m <= floor(sqrt(2^63-1)) so that
-   no intermediate product wraps, and e >= 2 (exponents 0 and 1 return 1 and a unreduced: see the _refuted theorem) *)
+(* mexp by the repeated-squaring invariant c * apower^u = a^e (mod m), every exponent e >= 0 (/repo bbf6f604b removed the
+   unreduced early returns); _partial: |a|, m <= floor(sqrt(2^63-1)) so that no intermediate product wraps *)
 Theorem C07_mexp_exact_partial :
-  forall a e m, in64 m = true -> 0 < m -> m <= 3037000499 -> Z.abs a <= 3037000499 -> 2 <= e -> in64 e = true ->
+  forall a e m, in64 m = true -> 0 < m -> m <= 3037000499 -> Z.abs a <= 3037000499 -> 0 <= e -> in64 e = true ->
   eval_tern TMexp (NInt a) (NInt e) (NInt m) = RInt (a ^ e mod m).
 Proof. exact mexp_exact. Qed.
 Print Assumptions C07_mexp_exact_partial.
-
-Theorem C07_mexp_small_exponent_refuted :
-  eval_tern TMexp (NInt 10) (NInt 1) (NInt 3) = RInt 10 /\ 10 ^ 1 mod 3 = 1 /\
-  eval_tern TMexp (NInt 5) (NInt 0) (NInt 1) = RInt 1 /\ 5 ^ 0 mod 1 = 0.
-Proof. exact mexp_small_exponent_unreduced. Qed.
-Print Assumptions C07_mexp_small_exponent_refuted.
 
 Theorem C07_mexp_negative_exponent_is_error :
   forall a e m, e < 0 -> eval_tern TMexp (NInt a) (NInt e) (NInt m) = RError.
@@ -316,38 +298,41 @@ Theorem C07_modular_functions_reject_floats :
 Proof. exact modops_reject_floats. Qed.
 Print Assumptions C07_modular_functions_reject_floats.
 
-(* ---- never crashes.  _partial: every operator except ./ ; the modular functions with a non-zero modulus ---- *)
-Theorem C07_binary_never_panics_partial :
-  forall op x y, op <> ODotDivide -> eval_bin op x y <> RPanic.
+(* ---- never crashes: no operator, no function, no operands (/repo 94ff40520: int ./ 0 is the float a/0;
+   /repo 83ceb0713: a zero modulus is an error value) ---- *)
+Theorem C07_binary_never_panics : forall op x y, eval_bin op x y <> RPanic.
 Proof. exact bin_no_panic. Qed.
-Print Assumptions C07_binary_never_panics_partial.
+Print Assumptions C07_binary_never_panics.
 
 Theorem C07_unary_never_panics : forall op x, eval_un op x <> RPanic.
 Proof. exact un_no_panic. Qed.
 Print Assumptions C07_unary_never_panics.
 
-Theorem C07_ternary_never_panics_partial :
-  forall op x y z, (forall m, z = NInt m -> m <> 0) -> eval_tern op x y z <> RPanic.
+Theorem C07_ternary_never_panics : forall op x y z, eval_tern op x y z <> RPanic.
 Proof. exact tern_no_panic. Qed.
-Print Assumptions C07_ternary_never_panics_partial.
+Print Assumptions C07_ternary_never_panics.
 
-(* the only panicking inputs of ./ are int ./ 0 *)
-Theorem C07_dot_divide_panics_exactly_on_int_zero :
-  forall x y, eval_bin ODotDivide x y = RPanic <-> exists a, x = NInt a /\ y = NInt 0.
-Proof. exact dotdivide_only_zero_panics. Qed.
-Print Assumptions C07_dot_divide_panics_exactly_on_int_zero.
+Theorem C07_zero_modulus_is_error : forall op a b, eval_tern op (NInt a) (NInt b) (NInt 0) = RError.
+Proof. exact tern_zero_modulus_error. Qed.
+Print Assumptions C07_zero_modulus_is_error.
 
-Theorem C07_never_panics_refuted :
-  eval_bin ODotDivide (NInt 1) (NInt 0) = RPanic
-  /\ eval_tern TMadd (NInt 5) (NInt 3) (NInt 0) = RPanic /\ eval_tern TMsub (NInt 5) (NInt 3) (NInt 0) = RPanic
-  /\ eval_tern TMmul (NInt 5) (NInt 3) (NInt 0) = RPanic /\ eval_tern TMexp (NInt 5) (NInt 3) (NInt 0) = RPanic.
-Proof. exact (conj (dotdivide_zero_panics 1) tern_zero_modulus_panics). Qed.
-Print Assumptions C07_never_panics_refuted.
+(* the witnesses of the repaired defects, as instances of the theorems above (regression anchors) *)
+Theorem C07_former_defect_witnesses :
+  (eval_bin OPlus (NInt min_int64) (NInt min_int64) = RFloat (PrimFloat.add (i2f min_int64) (i2f min_int64)) /\
+   eval_bin OMinus (NInt 0) (NInt min_int64) = RFloat (PrimFloat.sub (i2f 0) (i2f min_int64))) /\
+  (in64 (16440948372290153 * 561) = false /\
+   eval_bin OTimes (NInt 16440948372290153) (NInt 561) = RFloat (PrimFloat.mul (i2f 16440948372290153) (i2f 561)) /\
+   bits_of_f (PrimFloat.mul (i2f 16440948372290153) (i2f 561)) = float_of_int 9223372036854774784) /\
+  (eval_bin OMod (NInt (-10)) (NInt 5) = RInt 0 /\ eval_bin OMod (NInt 6) (NInt (-3)) = RInt 0 /\ eval_bin OMod (NInt 0) (NInt (-1)) = RInt 0
+   /\ eval_bin OMod (NInt (-17)) (NInt 10) = RInt 3 /\ eval_bin OMod (NInt 13) (NInt 10) = RInt 3 /\ eval_bin OMod (NInt 7) (NInt (-3)) = RInt (-2)) /\
+  (eval_tern TMexp (NInt 10) (NInt 1) (NInt 3) = RInt 1 /\ 10 ^ 1 mod 3 = 1 /\
+   eval_tern TMexp (NInt 5) (NInt 0) (NInt 1) = RInt 0 /\ 5 ^ 0 mod 1 = 0).
+Proof. exact (conj plus_minus_corners (conj times_former_wrap_witness (conj modulus_examples mexp_small_exponent_examples))). Qed.
+Print Assumptions C07_former_defect_witnesses.
 
 (* non-vacuity: concrete non-trivial inputs meet the hypotheses *)
 Example C07_nonvacuous :
   in64 9223372036854775807 = true /\ in64 1 = true /\ in64 (9223372036854775807 + 1) = false
-  /\ (9223372036854775807, 1) <> (min_int64, min_int64)
   /\ in64 (-7) = true /\ in64 2 = true /\ (2 <> 0) /\ (-7, 2) <> (min_int64, -1) /\ Z.rem (-7) 2 <> 0
   /\ eval_bin OIntDivide (NInt (-7)) (NInt 2) = RInt (-4) /\ eval_bin OMod (NInt (-7)) (NInt 2) = RInt 1
   /\ eval_bin OLsh (NInt 1) (NInt 63) = RInt min_int64 /\ eval_bin OUrsh (NInt (-1)) (NInt 60) = RInt 15
